@@ -120,7 +120,118 @@ def _kf05(entry):
     return False
 
 
+def _schema_has(p, ns, pred, depth=0, seen=None):
+    seen = seen if seen is not None else set()
+    if depth > 10:
+        return False
+    if pred(p):
+        return True
+    if isinstance(p, str):
+        if p in ns and p not in seen:
+            seen.add(p)
+            return _schema_has(ns[p], ns, pred, depth + 1, seen)
+        return False
+    if isinstance(p, list):
+        return any(_schema_has(b, ns, pred, depth + 1, seen) for b in p)
+    if isinstance(p, dict):
+        t = p.get("type")
+        if t == "array":
+            return _schema_has(p["items"], ns, pred, depth + 1, seen)
+        if t == "map":
+            return _schema_has(p["values"], ns, pred, depth + 1, seen)
+        if t in ("record", "error"):
+            return any(_schema_has(f["type"], ns, pred, depth + 1, seen) for f in p["fields"])
+    return False
+
+
+def _kf15_fieldless(entry):
+    c = entry["case"]
+    return ("_p" in c and "Internal Parser Exception" in entry["what"]
+            and _schema_has(c["_p"], c["_ns"], lambda s: isinstance(s, dict) and s.get("type") in ("record", "error") and not s["fields"]))
+
+
+def _kf15_error_type(entry):
+    c = entry["case"]
+    return "_p" in c and "Unhandled type: error" in entry["what"] and _schema_has(c["_p"], c["_ns"], lambda s: isinstance(s, dict) and s.get("type") == "error")
+
+
+def _recursive(p, ns):
+    """some named type is reachable from itself"""
+    def reach(s, target, seen, depth=0):
+        if depth > 12:
+            return False
+        if isinstance(s, str):
+            if s == target:
+                return True
+            if s in ns and s not in seen:
+                seen.add(s)
+                return reach(ns[s], target, seen, depth + 1)
+            return False
+        if isinstance(s, list):
+            return any(reach(b, target, seen, depth + 1) for b in s)
+        if isinstance(s, dict):
+            t = s.get("type")
+            if t == "array":
+                return reach(s["items"], target, seen, depth + 1)
+            if t == "map":
+                return reach(s["values"], target, seen, depth + 1)
+            if t in ("record", "error"):
+                return any(reach(f["type"], target, seen, depth + 1) for f in s["fields"])
+        return False
+    return any(isinstance(d, dict) and d.get("type") in ("record", "error") and
+               any(reach(f["type"], n, set()) for f in d["fields"]) for n, d in ns.items())
+
+
+def _depth(d, k=0):
+    if isinstance(d, dict):
+        return max([_depth(v, k + 1) for v in d.values()] + [k + 1])
+    if isinstance(d, (list, tuple)):
+        return max([_depth(v, k) for v in d] + [k])
+    return k
+
+
+def _kf06(entry):
+    """JSON encoding of recursive types: recursion through an array/map never terminates in the
+    grammar compiler; recursion through a union fails from the third level of nesting"""
+    c = entry["case"]
+    if "_p" not in c or not _recursive(c["_p"], c["_ns"]):
+        return False
+    if "RecursionError" in entry["what"]:
+        return True
+    return "IndexError" in entry["what"] and any(_depth(r) >= 3 for r in c["_recs"])
+
+
+def _kf12_json(entry):
+    c = entry["case"]
+    f = c.get("_f")
+    if not f:
+        return False
+    from spec import avro as A
+    return "default" in f and isinstance(f["default"], str) and f["type"] in ("float", "double", "bytes") or \
+        (isinstance(f.get("type"), dict) and f["type"].get("type") == "fixed" and isinstance(f.get("default"), str))
+
+
+def _kf20(entry):
+    return "RecursionError" in entry["what"] and "'items': '" in str(entry["case"].get("schema")) or \
+        ("RecursionError" in entry["what"] and "'values': '" in str(entry["case"].get("schema")))
+
+
 BOUNDED = [
+    dict(id="KF20", property="C20", clause="count_and_conformance",
+         what=("generate_one/generate_many never terminate (RecursionError) for a type that contains itself through an "
+               "array or map: arrays and maps are always generated with ten entries"), match=_kf20),
+    dict(id="KF15b", property="C15", clause="json_text_is_spec_encoding",
+         what="json_writer fails with 'Internal Parser Exception' for a record type without fields", match=_kf15_fieldless),
+    dict(id="KF15d", property="C15", clause="json_text_is_spec_encoding",
+         what="the JSON codec does not handle the 'error' type (\"Unhandled type: error\")", match=_kf15_error_type),
+    dict(id="KF06", property="C15", clause="json_text_is_spec_encoding",
+         what=("JSON codec and recursive types: a type that contains itself through an array or map makes the grammar "
+               "compiler recurse without end (RecursionError); a linked list nested three deep fails with IndexError"),
+         match=_kf06),
+    dict(id="KF12", property="C15", clause="absent_takes_default",
+         what=("a string-valued JSON default of a float/double/bytes/fixed field (\"NaN\", \"\\u00ff\") is handed out "
+               "unconverted when the field is absent from the JSON text"), match=_kf12_json),
+    dict(id="KF13", property="C15", clause="json_text_is_spec_encoding", what=DEDUCTIVE[0]["what"], match=_dictnull),
     dict(id="KF05", property="C12", clause="forms_equivalent",
          what=("a schema whose named types were parsed separately against a shared named-schema dictionary keeps bare "
                "references: a container file written from it cannot be read back on its own (UnknownType) and its "
@@ -157,6 +268,9 @@ FIXED = [
     "that the writers accept (validate(('E', 'A'), [enum E, 'string']) was False)",
     "fixed: property=C11 8caf421 a union-typed field accepted any default as soon as one branch was not a bare primitive "
     "([\"null\", array<int>] with default 5 or \"x\"); a boolean was accepted as the default of an int/long",
+    "fixed: property=C16 72ae32d prepare_fixed_decimal stored Decimal('-0') as -2 and silently truncated negative values that "
+    "do not fit the fixed size (Decimal('-9'), precision 2, scale 2, size 1 -> 1.24) instead of raising",
+    "fixed: property=C15 a0f0ebc json_writer raised 'No key was set' for a map entry whose key is the empty string",
     "fixed: property=C18 6c01e0c read_decimal set the precision on a module-level decimal Context and then used it "
     "(schedule: A sets prec=9, B reads a precision-2 decimal, A resumes and returns 1.2E+6 for 1234567.89)",
 ]
